@@ -183,7 +183,7 @@ func (s *sched) decide(c int, site string, finished bool) int {
 			return others[s.rng.Intn(len(others))]
 		}
 	case "targeted":
-		if site == s.sc.Target || (strings.HasSuffix(s.sc.Target, ":") && strings.HasPrefix(site, s.sc.Target)) {
+		if site == s.sc.Target || ((strings.HasSuffix(s.sc.Target, ":") || strings.HasSuffix(s.sc.Target, ".") || strings.HasSuffix(s.sc.Target, "/")) && strings.HasPrefix(site, s.sc.Target)) {
 			return next()
 		}
 		if s.sc.P > 0 && s.rng.Chance(s.sc.P) {
@@ -194,7 +194,7 @@ func (s *sched) decide(c int, site string, finished bool) int {
 }
 
 func siteInLint(site string) bool {
-	return strings.HasPrefix(site, "new:") || strings.HasPrefix(site, "conf:") || strings.HasPrefix(site, "applies:") || strings.HasPrefix(site, "exec:")
+	return strings.HasPrefix(site, "fn:lints/") || strings.HasPrefix(site, "fn:util.") || strings.HasPrefix(site, "new:") || strings.HasPrefix(site, "conf:") || strings.HasPrefix(site, "applies:") || strings.HasPrefix(site, "exec:")
 }
 
 // Yield is called by client c at a yield site. No lock of the code under test is held here.
@@ -452,7 +452,11 @@ func genSched(seed uint64, prop, tier, mode string) *Plan {
 	p := &Plan{Engine: "sched", Prop: prop, Seed: seed, Tier: tier, Knobs: map[string]any{}}
 	hg := &histGen{g: g, meta: meta, p: p, prof: profileFor("C07")}
 	race := strings.HasPrefix(mode, "free")
+	fg := strings.HasPrefix(mode, "fg")
 	K := 2 + g.weighted([]int{5, 4, 3, 1, 1, 1, 1})
+	if fg {
+		K = 2 + g.weighted([]int{6, 3, 1})
+	}
 	if race {
 		K = 4 + g.Intn(13) // 4..16 free-running clients
 	}
@@ -462,8 +466,12 @@ func genSched(seed uint64, prop, tier, mode string) *Plan {
 	}
 	p.Knobs["clients"] = K
 	p.Knobs["ops_per_client"] = opsPer
-	if race {
+	if race || fg {
 		p.Knobs["worker_mode"] = mode
+	}
+	if fg {
+		p.Knobs["finegrain"] = true
+		opsPer = g.Range(1, 3)
 	}
 
 	// ---- setup (sequential, before the clients start): shared registries, configurations
@@ -473,7 +481,7 @@ func genSched(seed uint64, prop, tier, mode string) *Plan {
 	}
 	hg.mregs = []*ModelReg{{Sel: all, Cfg: -1}}
 	nShared := g.Range(1, 3)
-	small := g.Chance(0.5) // small registries make schedules dense in distinct interleavings
+	small := g.Chance(0.5) || fg // small registries make schedules dense in distinct interleavings
 	for r := 0; r < nShared; r++ {
 		if small && g.Chance(0.7) {
 			names := meta.namesOfKind(KCert, false)
@@ -663,6 +671,19 @@ func genSched(seed uint64, prop, tier, mode string) *Plan {
 			sc.Target += n // one lint; otherwise every lint at that phase
 		}
 		sc.P = pick(g, []float64{0, 0, 0.02})
+	}
+	if fg {
+		// function-entry yields: a lint call passes thousands of sites
+		switch g.Intn(4) {
+		case 0:
+			sc.Strategy, sc.P = "bernoulli", pick(g, []float64{0.002, 0.02, 0.2})
+		case 1:
+			sc.Strategy, sc.Depth, sc.Horizon = "pct", g.Range(1, 6), K*opsPer*1500
+		case 2:
+			sc.Strategy, sc.Target, sc.P = "targeted", pick(g, []string{"fn:util.", "fn:lint.", "fn:lints/"}), 0
+		case 3:
+			sc.Strategy = "rr"
+		}
 	}
 	p.Schedule = sc
 	return p
@@ -877,6 +898,14 @@ func runSched(p *Plan, keepLog bool, mode string) *RunResult {
 		}(c, cs, view)
 	}
 	start := time.Now()
+	if !free && strings.HasPrefix(mode, "fg") {
+		if !fineGrainBuild {
+			return &RunResult{Seed: p.Seed, Engine: "sched", Prop: p.Prop, Counters: counters{}, HarnessErr: "fine-grain mode needs the zsim.fg build"}
+		}
+		installFineGrain(s)
+		defer uninstallFineGrain()
+		res.Counters.inc("finegrain_runs")
+	}
 	if !free {
 		first := 0
 		if sc.Strategy == "explicit" && len(sc.Explicit) > 0 && sc.Explicit[0].C == -1 {
